@@ -8,6 +8,14 @@ from a proto-event that differs in exactly one field) for all 16 registered room
 events built and signed with real ed25519 keys; after every step the fields the property names, Redacted(),
 CheckFields, the equality pattern of the real event IDs against the identity tokens (room versions 3+), the ID
 alphabet and the room-ID / auth-event derivations of room versions with domainless room IDs are compared.
+Edge of what is an event (family `edge`): proto-events whose content / unsigned names a member twice below the top level
+(in the content itself, in a nested object, two levels down, inside an array element) and proto-events of depth 2^53,
+2^53+1, 2^63-2, 2^63-1: what Build hands out must be an event on every parse path (room versions 6+: Build refuses the
+depths), and siblings that differ only in such depths have different IDs (family `sib`, fields depth_up / depth_max).
+Several handles on the same bytes (family `alias`): NewEventFromTrustedJSON(p.JSON()), ...WithEventID, the headered path
+and the slices a caller kept share the built event's bytes; one edit on one handle (SetUnsigned, SetUnsignedField of a new
+field / of an existing field with a shorter / equally long / longer value, Sign, Redact) must leave every observation of
+every other handle, and the kept bytes, as they were.
 code -> spec: seeded random events with random contents go through random operations; every logged call is
 re-derived by EventIdentity_trace.tla."""
 import os
@@ -52,6 +60,22 @@ def run(ctx):
         "room versions: the identity is the sender key under the MSC's fixed key ID); only the signer is respelt - sender, room "
         "and state keys keep the plain server name; a failure that disappears under the plainly spelt identity is keyed by the "
         "spelling class it needs",
+        "family edge: content texts naming a member twice below the top level (the member zz_num twice in the content; "
+        "{\"a\":1,\"b\":\"x\",\"a\":2}; m.relates_to with event_id twice; an array element with user_id twice) and an unsigned "
+        "section whose prev_content names membership twice: ambiguous JSON (RFC 8259 section 4) that no clause of the event "
+        "format excludes and that Build signs as given - the event handed out must re-parse on all three paths (a Build that "
+        "refuses such a proto-event is accepted); content is compared as a tree whose objects are multisets of members; "
+        "depths 2^53, 2^53+1, 2^63-2, 2^63-1: room versions 1-5 build and round-trip them and events differing only in "
+        "depth (2^53-1 / 2^53 / 2^53+1 / 2^63-2 / 2^63-1 pairwise-adjacent, and each against 2^63-1) have different IDs; room "
+        "versions 6+ (canonical JSON) must refuse them - an event handed out instead must carry the proto-event's depth",
+        "family alias: handles on the same bytes are made WITHOUT copying (q := NewEventFromTrustedJSON(p.JSON()), "
+        "NewEventFromTrustedJSONWithEventID(id, p.JSON()), NewEventFromHeaderedJSON(p.ToHeaderedJSON()), the slices p.JSON() "
+        "and ToHeaderedJSON() returned); one operation {SetUnsigned x2, SetUnsignedField new field, SetUnsignedField(age) "
+        "with a value of fewer / as many / more digits than the present one (where unsigned has age: from the proto-event or "
+        "from an earlier SetUnsigned), Sign by another server, Redact} on one of the four events, the other three and the "
+        "kept slices observed after it (JSON() byte for byte, Redacted(), every accessor, the kept bytes parsed as untrusted "
+        "input against a copy taken before); half of the behaviours never read an accessor before the edit (lazily "
+        "computed IDs); callers writing into a slice JSON() returned are outside the contract and not modelled",
         "numbers that are not canonical integers (1.5, 1e3, 1E2, +-2^53, -0, 2.0, a fraction nested in an array) appear "
         "only in the `num` family, as one content value: in room versions 6+ the specification has Build refuse the "
         "proto-event (a refusal is accepted; an event handed out instead must satisfy every clause, i.e. re-parse on "
@@ -65,14 +89,38 @@ def run(ctx):
         "content, custom state, member with restricted-join / third-party-invite content, member with kept keys only) x "
         "prev/auth/depth/unsigned variants x (%s) and x 17 sibling fields after 0/1 operation; family num: 16 room versions x %s shapes x 11 number classes in the content x behaviours of length %s; family sid: 16 room versions x %s signer-identity spellings (of 8 server-name x 6 key-ID classes) x behaviours of length 2 over 6 operations; distinct = distinct "
         "(family, ID format, redaction algorithm, domainless, type, operation sequence, redacted pattern, sibling field, "
-        "number class, signer spelling in family sid)" % ((ops,) + (("3", "2", "15") if ctx.tier == "quick" else ("6", "3", "all 48"))))
-    fams = ["ops", "opsb", "num", "len", "sid", "sib"] if ctx.tier == "quick" else ["ops", "ops2", "num", "len", "sid", "sib"]
+        "number / repeated-member class, high depth, signer spelling in family sid; family alias: handle edited, edit, cold / warm, unsigned of the proto-event)" % ((ops,) + (("3", "2", "15") if ctx.tier == "quick" else ("6", "3", "all 48"))))
+    fams = (["ops", "opsb", "num", "len", "sid", "sib", "edge", "alias"] if ctx.tier == "quick"
+            else ["ops", "ops2", "num", "len", "sid", "sib", "edge", "alias"])
     ctx.notes["constants"] = ", ".join("EventIdentity_gen_%s_%s.cfg" % (f, ctx.tier) for f in fams)
     for fam in fams:
         r = ctx.tlc("EventIdentity_gen", "EventIdentity_gen_%s_%s.cfg" % (fam, ctx.tier), timeout=2400)
+        _dimensions_present(fam, r.records)
         ctx.replay_and_compare("c03", r.records, pkg=PKG)
         del r
     record_and_validate(ctx, "c03", 3000 if ctx.tier == "quick" else 60000, "C03")
+
+
+def _dimensions_present(fam, records):
+    """the generator must still contain the dimensions the families were added for"""
+    if fam == "sib":
+        pairs = set((x["proto"]["depth"], x["proto2"]["depth"]) for x in records if x["fam"] == "sib" and x["f"] in ("depth_up", "depth_max"))
+        want = {("d3", "d4"), ("d4", "d5"), ("d5", "d6"), ("d6", "d7"), ("d3", "d7"), ("d4", "d7")}
+        if want - pairs:
+            raise MachineryError("sib family lost the siblings of high depth: %s" % sorted(want - pairs))
+    elif fam == "edge":
+        reps = set(x["proto"]["num"] for x in records) | set("unsigned:" + x["proto"]["unsigned"] for x in records)
+        want = {"rep-content", "rep-nested", "rep-deeper", "rep-array", "unsigned:urep"}
+        depths = set((x["proto"]["depth"], x["refuse"]) for x in records)
+        wantd = set((d, f) for d in ("d4", "d5", "d6", "d7") for f in (True, False))
+        if want - reps or wantd - depths:
+            raise MachineryError("edge family lost dimensions: %s %s" % (sorted(want - reps), sorted(wantd - depths)))
+    elif fam == "alias":
+        have = set((x["who"], x["o"], x["cold"]) for x in records)
+        want = set((w, o, c) for w in ("built", "RT", "RW", "RH") for o in ("SU1", "SU2", "SF", "SFs", "SFe", "SFl", "AS2", "RD")
+                   for c in (True, False))
+        if want - have:
+            raise MachineryError("alias family lost (handle, edit) pairs: %s" % sorted(want - have)[:8])
 
 
 def _fresh(ctx, probe, cmd):
